@@ -198,7 +198,9 @@ class SccContext:
     """Processes SCC Preamble Address Code it to the map to model"""
 
     pac_row = pac.get_row()
-    pac_indent = pac.get_indent()
+
+    # PACs that set a color or italics have no indent and move the cursor to the first column
+    pac_indent = pac.get_indent() or 0
 
     if self.current_style is SccCaptionStyle.PaintOn:
 
